@@ -69,23 +69,36 @@ def _ydata(name, version, seed):
 class Wiring:
     """Real DependenceFunction objects for one graph, with `_fit` wrapped for recording."""
 
-    def __init__(self, vc, graph, decl, seed, strict=False):
+    def __init__(self, vc, graph, decl, seed, strict=False, lazy=False):
         self.vc = vc
         self.strict = strict
+        self.lazy = lazy        # lazy: a function is declared only right before its first fit call (D63)
         self.deps = GRAPHS[graph]
         self.seed = seed
         self.objs = {}
         self.log = []
-        for name in decl:
-            conds = self.deps[name]
-            kw = {k: self.objs[c] for k, c in zip(["A", "B"], conds)}
-            self.objs[name] = vc.DependenceFunction(_make_func(conds, strict), **kw)
-        self.names = {id(o): n for n, o in self.objs.items()}
-        self.start = {n: dict(o.parameters) for n, o in self.objs.items()}
+        self.names, self.start = {}, {}
+        if not lazy:
+            for name in decl:
+                self.declare(name)
         self.data = {}
+
+    def declare(self, name):
+        if name in self.objs:
+            return
+        conds = self.deps[name]
+        for c in conds:
+            self.declare(c)
+        kw = {k: self.objs[c] for k, c in zip(["A", "B"], conds)}
+        o = self.vc.DependenceFunction(_make_func(conds, self.strict), **kw)
+        self.objs[name] = o
+        self.names[id(o)] = name
+        self.start[name] = dict(o.parameters)
 
     def offset(self, name):
         conds = self.deps[name]
+        if any(c not in self.objs for c in conds):
+            return np.full_like(XS, np.nan)
         off = np.zeros_like(XS)
         if len(conds) >= 1:
             off = off + 0.5 * self.objs[conds[0]](XS) ** 2
@@ -96,7 +109,7 @@ class Wiring:
     def pdev(self, name):
         """relative deviation (x1e9, clamped) of the parameters from the least squares solution
         computed with the CURRENT conditioner parameters; 2e9 if fit was never called"""
-        if name not in self.data:
+        if name not in self.data or name not in self.objs:
             return 2 * 10**9
         y = self.data[name]
         A = np.c_[np.ones_like(XS), XS]
@@ -118,6 +131,7 @@ class Wiring:
             log.append(names.get(id(obj), "?"))
             return orig(obj, x, y)
 
+        self.declare(name)
         y = _ydata(name, version, self.seed)
         self.data[name] = y
         DF._fit = rec
@@ -130,28 +144,29 @@ class Wiring:
             exc = f"{type(e).__name__}: {e}"[:160]
         finally:
             DF._fit = orig
-        hasattrs = all(hasattr(o, "_may_fit") and hasattr(o, "_fitted_conditioners") for o in self.objs.values())
+        allnames = list(self.deps)
+        hasattrs = (not self.lazy) and all(hasattr(o, "_may_fit") and hasattr(o, "_fitted_conditioners") for o in self.objs.values())
         ev = dict(f=name, d=version, internal=log, exc=exc,
-                  pdev={n: self.pdev(n) for n in self.objs},
-                  atstart={n: dict(o.parameters) == self.start[n] for n, o in self.objs.items()})
+                  pdev={n: self.pdev(n) for n in allnames},
+                  atstart={n: (n not in self.objs or dict(self.objs[n].parameters) == self.start[n]) for n in allnames})
         if hasattrs:
             ev["mayfit"] = {n: bool(o._may_fit) for n, o in self.objs.items()}
             ev["nfc"] = {n: len(o._fitted_conditioners) for n, o in self.objs.items()}
         else:
-            ev["mayfit"] = {n: False for n in self.objs}
-            ev["nfc"] = {n: 0 for n in self.objs}
+            ev["mayfit"] = {n: False for n in allnames}
+            ev["nfc"] = {n: 0 for n in allnames}
         return ev, hasattrs
 
 
-def proto_record(vc, rid, graph, decl, calls, seed, strict=False):
-    w = Wiring(vc, graph, decl, seed, strict)
+def proto_record(vc, rid, graph, decl, calls, seed, strict=False, lazy=False):
+    w = Wiring(vc, graph, decl, seed, strict, lazy)
     evs = []
     has = True
     for name, version in calls:
         ev, h = w.call(name, version)
         has = has and h
         evs.append(ev)
-    return dict(id=rid, kind="proto", graph=graph, decl=list(decl), events=evs, hasattrs=has, strict=bool(strict))
+    return dict(id=rid, kind="proto", graph=graph, decl=list(decl), events=evs, hasattrs=has, strict=bool(strict), lazy=bool(lazy))
 
 
 # ------------------------------------------------------------------------------------
@@ -186,6 +201,9 @@ def shapes():
     def quadbasis(x, a, b):
         return a * np.sqrt(x) + b * x**2
 
+    def linneg2(x, a, b):
+        return a + b * x
+
     B3 = [(0, None), (0, None), (None, None)]
     return [
         # name, func, true params, bounds options, linear?
@@ -198,6 +216,8 @@ def shapes():
         ("limited_growth2", limited_growth2, (0.09, 0.8), [[(0, 1), (0, None)]], False),
         ("poly3", poly3, (0.5, -0.2, 0.15), [None, [(None, None)] * 3], True),
         ("quadbasis", quadbasis, (1.1, 0.3), [None], True),
+        # bounds that exclude the default start value 1 of a parameter without default (D64)
+        ("linneg2", linneg2, (5.0, -0.3), [[(None, None), (None, 0)], [(2, 10), (None, None)], [(None, None), (-1, -0.1)]], True),
         # residual of about 1e5..1e6 at the start parameters (1, 1, 1): scale dependence of SLSQP (D41)
         ("poly3wide", poly3, (1.0, 0.5, 0.05), [[(0, None)] * 3, [(0, None), (0, None), (None, None)]], True),
     ]
@@ -218,12 +238,18 @@ def fit_record(vc, rid, case):
     x = np.sort(rng.uniform(0.3, 20.0 if name.endswith("wide") else 6.0, size=n))
     y = func(x, *ptrue)
     y = y + case["noise"] * np.abs(y).mean() * rng.standard_normal(n)
+    if case.get("fixed"):
+        x, y = np.array(FIXED_DATA[case["fixed"]]["x"]), np.array(FIXED_DATA[case["fixed"]]["y"])
+        n = len(x)
     wkind = case["weights"]
     weights = None
     if wkind == "y":
         weights = lambda xx, yy: np.abs(yy) + 0.1  # noqa
     elif wkind == "x":
         weights = lambda xx, yy: 0.5 + xx  # noqa
+    elif wkind == "y2":
+        # arithmetic that only works on arrays (a joint fit hands the estimates over as a Python list: D62)
+        weights = lambda xx, yy: yy**2 + 0.5 * xx + 0.05  # noqa
     cons = None
     ckind = case["cons"]
     npar = len(ptrue)
@@ -231,6 +257,8 @@ def fit_record(vc, rid, case):
         # constraint on the last parameter: p[-1] <= limit  (active: limit below the true value)
         lim = ptrue[-1] - 0.3 * (abs(ptrue[-1]) + 0.2) if ckind.startswith("active") else ptrue[-1] + 5 * (abs(ptrue[-1]) + 1)
         c = {"type": "ineq", "fun": (lambda p, lim=lim: lim - p[-1])}
+        if case.get("fixed"):
+            c = {"type": "ineq", "fun": (lambda p: p[0] + p[1])}     # a + b >= 0: inactive
         cons = c if ckind.endswith("dict") else [c]
     expected = ["ok", "RuntimeError"]   # "Raises RuntimeError if the fit fails" is documented
     if cons is not None and weights is not None:
@@ -243,7 +271,10 @@ def fit_record(vc, rid, case):
     try:
         with warnings.catch_warnings():
             warnings.simplefilter("ignore")
-            df.fit(x, y)
+            if case.get("aslist"):
+                df.fit([float(v) for v in x], [float(v) for v in y])
+            else:
+                df.fit(x, y)
         rec["outcome"] = "ok"
     except NotImplementedError:
         rec["outcome"] = "NotImplementedError"
@@ -313,19 +344,34 @@ def _inactive(bounds, ptrue):
     return True
 
 
+# data on which a restart stage of the constrained fit makes progress but hits SLSQP's iteration limit (D65):
+# DNVGL exponential shape, 8 support points, y = 2.1236 + 0.3261 exp(-0.3304 x) + small noise
+FIXED_DATA = {
+    "exp3-8pts": dict(x=[3.165178296821977, 4.95019434472089, 5.126942778720538, 7.206066184389611,
+                         7.473320373909797, 7.616005795665915, 7.876765040064615, 7.910974208582914],
+                      y=[2.23936033084433, 2.186679465146297, 2.1821759880921525, 2.152817559009799,
+                         2.1513885617124244, 2.149873798803031, 2.1481318790244432, 2.1466633315562653]),
+}
+
+
 def fit_cases(ctx):
     rng = np.random.default_rng(ctx.seed + 7)
     reps = ctx.pick(3, 12)
     out = []
+    exp3 = [sh for sh in shapes() if sh[0] == "exp3"][0]
+    for ckind in ("inactive_dict", "inactive_list"):
+        out.append(dict(shape=(exp3[0], exp3[1], (2.1236, 0.3261, -0.3304), exp3[3][0], False), weights="none", cons=ckind,
+                        aslist=False, fixed="exp3-8pts", n=8, noise=0.0, seed=0))
     for sh in shapes():
         name, func, ptrue, blist, linear = sh
         for bounds in blist:
-            for wkind in ("none", "y", "x"):
+            for wkind in ("none", "y", "x", "y2"):
                 for ckind in ("none", "inactive_dict", "inactive_list", "active_dict", "active_list"):
                     if ckind != "none" and bounds is None and name not in ("linear2", "poly3"):
                         continue
                     for _ in range(reps * (4 if name == "poly3wide" and ckind.startswith("inactive") else 1)):
                         out.append(dict(shape=(name, func, ptrue, bounds, linear), weights=wkind, cons=ckind,
+                                        aslist=bool(wkind == "y2" or len(out) % 5 == 0),
                                         n=int(rng.integers(3 if len(ptrue) <= 3 else 5, 21)),
                                         noise=float(rng.choice([0.0, 0.01, 0.05])),
                                         seed=int(rng.integers(0, 2**31))))
@@ -334,7 +380,8 @@ def fit_cases(ctx):
 
 def fit_key(c):
     return (f"fit shape={c['shape'][0]} bounds={c['shape'][3]} weights={c['weights']} cons={c['cons']} "
-            f"n={c['n']} noise={c['noise']} seed={c['seed']}")
+            f"n={c['n']} noise={c['noise']} seed={c['seed']}" + (" aslist" if c.get("aslist") else "")
+            + (f" data={c['fixed']}" if c.get("fixed") else ""))
 
 
 def random_histories(ctx):
@@ -372,12 +419,12 @@ def run(ctx):
     rid = 0
     for b in behs:
         calls = [(h["f"], h["d"]) for h in b["hist"] if h["op"] == "fit"]
-        for strict in (False, True):
+        for strict, lazy in ((False, False), (True, False), (False, True)):
             rid += 1
-            recs.append(proto_record(vc, rid, b["graph"], b["decl"], calls, ctx.seed, strict))
+            recs.append(proto_record(vc, rid, b["graph"], b["decl"], calls, ctx.seed, strict, lazy))
             keys.append(f"proto graph={b['graph']} decl={','.join(b['decl'])} calls={' '.join(f'{f}{d}' for f, d in calls)}"
-                        + (" strict" if strict else ""))
-            cases.append(dict(kind="proto", graph=b["graph"], decl=b["decl"], calls=calls, strict=strict))
+                        + (" strict" if strict else "") + (" lazy" if lazy else ""))
+            cases.append(dict(kind="proto", graph=b["graph"], decl=b["decl"], calls=calls, strict=strict, lazy=lazy))
     for graph, decl, calls in random_histories(ctx):
         strict = bool(rid % 2)
         rid += 1
@@ -392,7 +439,7 @@ def run(ctx):
         recs.append(fit_record(vc, rid, c))
         keys.append(fit_key(c))
         cases.append(dict(kind="fit", shape=c["shape"][0], bounds=c["shape"][3], weights=c["weights"], cons=c["cons"],
-                          n=c["n"], noise=c["noise"], seed=c["seed"]))
+                          n=c["n"], noise=c["noise"], seed=c["seed"], aslist=c.get("aslist", False), fixed=c.get("fixed")))
     failing = ctx.validate("Trace_C14", "Trace_C14.cfg", recs)
     for r, k, c in zip(recs, keys, cases):
         ctx.case(k, nontrivial=(r["kind"] == "fit" or any(GRAPHS[r["graph"]][e["f"]] or True for e in r["events"])))
@@ -422,12 +469,12 @@ def replay(ctx, case):
     vc = import_virocon()
     c = case["case"]
     if c["kind"] == "proto":
-        r = proto_record(vc, 1, c["graph"], c["decl"], [tuple(x) for x in c["calls"]], ctx.seed, c.get("strict", False))
+        r = proto_record(vc, 1, c["graph"], c["decl"], [tuple(x) for x in c["calls"]], ctx.seed, c.get("strict", False), c.get("lazy", False))
     else:
         sh = [s for s in shapes() if s[0] == c["shape"]][0]
         b = c["bounds"]
         b = None if b is None else [tuple(x) for x in b]
-        r = fit_record(vc, 1, dict(shape=(sh[0], sh[1], sh[2], b, sh[4]), weights=c["weights"], cons=c["cons"],
+        r = fit_record(vc, 1, dict(shape=(sh[0], sh[1], sh[2], b, sh[4]), weights=c["weights"], cons=c["cons"], aslist=c.get("aslist", False), fixed=c.get("fixed"),
                                    n=c["n"], noise=c["noise"], seed=c["seed"]))
     failing = ctx.validate("Trace_C14", "Trace_C14.cfg", [r])
     ctx.case(case["key"])
